@@ -44,6 +44,21 @@ def run_c20(check, thorough):
                 continue
             if got1 != want or got2 != want:
                 routes_bad.append((f, wrt, f"Formula.differentiate gives {want}, ModelSpec.differentiate {got1} (fresh) / {got2} (materialized)"))
+    # structured formulas: every part's derivative is the derivative of that part (same nested shape)
+    from formulaic.utils.structured import Structured
+
+    for f, wrt in itertools.product(("y ~ a + a:b", "y + a ~ a:b | b + a:c", "a:b | a + b"), (("a",), ("b", "a"), ("y",))):
+        try:
+            F = Formula(f)
+            D = F.differentiate(*wrt)
+            want = F._map(lambda part: [repr(t) for t in part.differentiate(*wrt)])
+            got = D._map(lambda part: [repr(t) for t in part])
+            same = isinstance(D, Structured) and got._to_dict() == want._to_dict()
+        except Exception as e:
+            routes_bad.append((f, wrt, f"raised {type(e).__name__}: {str(e)[:80]}"))
+            continue
+        if not same:
+            routes_bad.append((f, wrt, f"StructuredFormula.differentiate gives {got._to_dict()}, differentiating each part gives {want._to_dict()}"))
     check.obligation("derivative.routes/ground", "ground" if not routes_bad else "refuted")
     for f, wrt, msg in routes_bad[:3]:
         check.violation("derivative-routes-differ", f"d/d{list(wrt)} of {f!r}: {msg}", {"kind": "c20_routes", "formula": f, "wrt": list(wrt)})
